@@ -16,6 +16,8 @@ CONSTANTS
   Monitor = FALSE
   IdleMax = 2
   DevMonNoFeed = FALSE
+  Reactive = FALSE
+  DevNoSignalOnError = FALSE
   DevCloseWriterFallback = FALSE
   Emit = FALSE
   Classes = @@CLASSES@@
